@@ -48,6 +48,22 @@ def main(tier: str) -> int:
     seed = env.seed()
     cases, verdicts, gen_states, jstats, predicted = undersized_campaign(seed, 120 if tier == "quick" else 1500)
 
+    # exhaustive part: small undersized universes, every reachable state x every call on real Streams (both term encoders); a call is either
+    # refused (the stream is failed, what was written is a valid prefix) or its rows are valid and denote it -- judged by TLC on each real edge
+    from .. import writergraph as wg  # noqa: PLC0415
+
+    graph = {}
+    plan = {"wg-c18pq": None, "wg-c18d": None, "wg-c18g": 1} if tier == "quick" else {"wg-c18p": None, "wg-c18pq": None, "wg-c18d": None, "wg-c18g": 2}
+    cache: dict = {}
+    for name, body_max in plan.items():
+        for integ in ("generic", "rdflib"):
+            if integ == "rdflib" and name not in wg.RDF11:
+                continue
+            st_, gst = wg.compare_slice(run, name, wg.slice_consts(name), body_max, integ=integ, model_cache=cache)
+            if st_ is None:
+                break
+            graph[name + ("" if integ == "generic" else "/rdflib")] = st_
+            gen_states += gst["states"]
     raised = bad_real = 0
     samples = []
     for i, case in enumerate(cases):
@@ -69,8 +85,8 @@ def main(tier: str) -> int:
     return run.finish({
         "states": gen_states + jstats["states"], "transitions": gen_states + jstats["transitions"],
         "traces_validated_against_impl": len(cases), "samples": samples or [{"note": "no failing case"}], "exhaustive": False,
-        "behaviours": len(cases), "model_predicted_refusals": predicted, "real_corruption": bad_real, "serializer_refused": raised,
-        "explanation": "PyWriter with the Fits guard removed (CheckFits=FALSE) is simulated over universes whose statements need more prefix / datatype / "
+        "behaviours": len(cases), "state_graph_comparison": graph, "model_predicted_refusals": predicted, "real_corruption": bad_real, "serializer_refused": raised,
+        "explanation": "state graph of small undersized universes walked on real Streams under both term encoders, every call refused or judged valid+faithful by TLC (inductive step); PyWriter with the Fits guard removed (CheckFits=FALSE) is simulated over universes whose statements need more prefix / datatype / "
                        "name entries than the table holds (max_prefixes 1-3, max_datatypes 1-3 with generalized literals, max_names 8 with nested quoted triples); "
                        "each behaviour is replayed into a real Stream, stopped at the first refusal, and the bytes are judged by TLC against the accepted statements",
     })
